@@ -343,3 +343,12 @@ Example c02_compact_unknown_nonvacuous :
   cenc_fields e ftyp l 0 = [21;9;  108; 17; 25;21;216;4; 0;  34;  56;1;120;  0] /\
   cdec_fields 20 e decls 0 (None, cenc_fields e ftyp l 0 ++ [9]) = Ok ([(1, VInt (-5)); (12, VBytes [120])], (None, [9])).
 Proof. split; vm_compute; reflexivity. Qed.
+
+(** No byte sequence makes the compact reader of the model panic: whatever the input, the pending
+    bool, the declared type and the fuel, [cdec] and the generated Read [gcread] end in a value, an
+    error or fuel exhaustion (the harness observes no panic either; a nil required struct field can
+    only panic the *writer*, [nil_wire]) *)
+Theorem c02_compact_read_never_panics : forall fuel e t b p st,
+  gcread fuel e t b <> Panic p /\ cdec fuel e t st <> Panic p.
+Proof. exact (fun fuel e t b p st => conj (compact_read_no_panic fuel e t b p) (compact_reader_no_panic fuel e t st p)). Qed.
+Print Assumptions c02_compact_read_never_panics.
